@@ -37,7 +37,10 @@ def natOfInt? (s : String) : Option (Option Nat) :=
   (parseInt? s).map (fun k => if k < 0 then none else some k.toNat)
 
 def answer : List String → String
-  | ["run", nC, bs, sc, sn, stack, dfr, dc, cp, mi, skip, db, halt, conv] =>
+  | ["run", nC, bs, sc, sn, stack, dfr, dc, cp, mi, skip, db, halt, conv, bolset] =>
+    match (if bolset = "_" then some none else (parseNatList? bolset).bind (fun l => match l with | [a, b, c] => some (some (a, b, c)) | _ => none)) with
+    | none => "bad-op"
+    | some bolSet =>
     match parseNat? nC, parseNatList? bs, parseNat? sc, parseNat? sn, parseStack? stack,
       parseNatList? dfr, parseNat? dc, parseBool? cp, parseNat? mi, parseNatList? skip,
       parseNat? db, parsePairs? halt, parseQuads? conv with
@@ -48,7 +51,7 @@ def answer : List String → String
         deferredNames := dfr, deferredCycle := dc, couplingOn := cp, maxIters := mi,
         skipCycles := skip, dbName := db,
         halt := fun i c => halt.contains (i, c),
-        conv := fun i c n it => conv.contains (i, c, n, it) }
+        conv := fun i c n it => conv.contains (i, c, n, it), bolSet := bolSet }
       if wellFormed cfg then ";".intercalate ((run cfg).map showEvent) else "reject"
     | _, _, _, _, _, _, _, _, _, _, _, _, _ => "bad-op"
   | ["active", h, excl, cycle, stack, dfr, dc] =>
